@@ -56,7 +56,12 @@ POOLS = {
     'hint_overrides': ([FrozenDict(), FrozenDict({int: str}), FrozenDict({int: str}), FrozenDict({str: bytes}),
                         # equal mappings written in different orders (dict equality ignores insertion order)
                         FrozenDict({int: str, bytes: bool}), FrozenDict({bytes: bool, int: str}),
-                        FrozenDict({int: str, bytes: bool, list: tuple}), FrozenDict({list: tuple, bytes: bool, int: str})],
+                        FrozenDict({int: str, bytes: bool, list: tuple}), FrozenDict({list: tuple, bytes: bool, int: str}),
+                        # overrides of the tower's own keys: equal to what the tower installs (fine) or contrary (conflict)
+                        FrozenDict({float: float | int}), FrozenDict({complex: complex | float | int}),
+                        FrozenDict({float: float | int, complex: complex | float | int}), FrozenDict({complex: str}),
+                        FrozenDict({float: float | int, complex: str}), FrozenDict({float: str, complex: complex | float | int}),
+                        FrozenDict({float: float | int, int: str})],
                        [{}, {int: str}, None, ((int, str),)]),
     'is_color': ([True, False, None], [1, 0, 1.0, 'yes', 2]),
     'strategy': (STRATS, [1, 2, 4, 'O1', None]),
@@ -117,7 +122,7 @@ def kw_valid(kw):
     # documented cross-option rule: the tower conflicts with contrary explicit overrides
     if kw.get('is_pep484_tower') is True:
         ho = kw.get('hint_overrides') or {}
-        if float in ho or complex in ho:
+        if (float in ho and ho[float] != (float | int)) or (complex in ho and ho[complex] != (complex | float | int)):
             return False
     return True
 
@@ -335,7 +340,7 @@ def main():
             return None
         if mode == 'threads':
             kw = isolate(gen_kw(rng, 0.0))
-            if kw is None:
+            if kw is None or not kw_valid(kw):      # (all-valid values can still conflict across options)
                 continue
             res = dict(ok=thread_history(kw))
             W.count('thread_histories')
